@@ -223,9 +223,41 @@ def r04_7(ctx):
     return r
 
 
+def r04_8(ctx):
+    r = Rule("R04.8", "a directive's value is the attribute's value in both of its written forms: `{expr}` and a plain string literal",
+             "`v-tooltip=\"Save\"` binds `void 0` when only the expression-container form is read")
+    dp = C.role_or_fail(ctx, r, "directive_parser")
+    if not dp:
+        return r
+    r.saw(dp["path"])
+    from .hirflow import HirIndex
+    idx = HirIndex(dp)
+    forms = {"container": False, "string": False}
+    for n in idx.nodes:
+        if n.get("k") not in ("Assign", "Let"):
+            continue
+        tgt = local_of(n["l"]) if n.get("k") == "Assign" else ((n["pat"].get("name"), n["pat"].get("id")) if n["pat"].get("k") == "PBind" else None)
+        if not tgt or tgt[0] != "value":
+            continue
+        rhs = n["r"] if n.get("k") == "Assign" else n.get("init")
+        if rhs is None:
+            continue
+        pats = [pat_str(f["pat"]) for f in idx.known_true(n) if not isinstance(f, tuple) and f.get("k") == "LetExpr"]
+        pats += [pat_str(p["pat"]) for p in idx.parents(n) if p.get("k") == "Arm"]
+        t = expr_str(rhs)
+        if any("JSXExprContainer(" in p for p in pats) and "undefined()" not in t.split(" else ")[0][:20]:
+            forms["container"] = True
+        if any("Lit(Str(" in p for p in pats) and any(x.get("k") == "Struct" and x.get("adt") == AST + "Str" for x in walk(rhs)):
+            forms["string"] = True
+    r.ob("value taken from an expression container", forms["container"], C.mloc(dp, dp), "`value = ..` under JSXExprContainer(..)" if forms["container"] else "not found")
+    r.ob("value taken from a string literal attribute", forms["string"], C.mloc(dp, dp),
+         "`value = Lit(Str(..))` under Lit(Str(..))" if forms["string"] else "no `value = <string literal>` under a `JSXAttrValue::Lit(Lit::Str(..))` pattern: `v-foo=\"text\"` binds `void 0`")
+    return r
+
+
 def rules(ctx):
     from ..engine import only
-    return [r04_1, r04_2, r04_4, r04_5, r04_6, r04_7,
+    return [r04_1, r04_2, r04_4, r04_5, r04_6, r04_7, r04_8,
             only(c07.r07_6, lambda k: "directive::" in k or k.startswith("JSX attribute literal"), "string values of v-html / v-text"),
             only(c11.r11_1, lambda k: k.startswith("parse_"), "value / argument of a parsed directive come from distinct parts of the attribute value")]
 
